@@ -304,7 +304,7 @@ func runBrokerPairs(r *h.Run, c h.Conf, kind string) {
 	}
 	// the control connection still works
 	o := r.DoNoHang("Ping", 60*time.Second, kind, func() (any, error) { return nil, s.cp.Ping() })
-	if o.Err != nil && w.InjectedTotal() < 10*time.Second && w.Faults["conn.rst"] == 0 {
+	if o.Err != nil && w.InjectedTotal() < 10*time.Second && w.FaultCount("conn.rst") == 0 {
 		r.Violate("main-conn-lost", "broker="+kind, fmt.Sprintf("ping after brokered traffic failed: %v", o.Err))
 	}
 	s.kill()
@@ -447,7 +447,7 @@ func runC08(r *h.Run) {
 	}
 	var keptConns []kept
 	hostConns := map[uint32]interface{ Close() error }{}
-	noisy := func() bool { return w.InjectedTotal() > 2*time.Second || w.Faults["conn.rst"] > 0 }
+	noisy := func() bool { return w.InjectedTotal() > 2*time.Second || w.FaultCount("conn.rst") > 0 }
 	for _, p := range pairs {
 		p := p
 		ctx := fmt.Sprintf("broker=grpcmux dir=%s order=%s", p.dir(), p.order())
